@@ -101,10 +101,15 @@ def expected(fn, vals, scalars):
     raise AssertionError(fn)
 
 
+OTHER_FIRST = 100   # the sheet 'O t' holds this number at position 0: same corners as sheet C, other content
+
+
 def overrides(vec):
     ov = []
     for sheet, addrs in POS.items():
-        for v, a in zip(vec, addrs):
+        for k, (v, a) in enumerate(zip(vec, addrs)):
+            if sheet == 'O t' and k == 0:
+                v = OTHER_FIRST
             if v is not None:
                 ov.append(((sheet, a), v))
     return ov
@@ -115,6 +120,8 @@ def judge(vec, entries, outs, src, stats, i, vio):
     by = {}
     for (addr, fn, form, idx, scalars), o in zip(entries, outs):
         vals = [vec[j] if j < len(vec) else None for j in idx]
+        if form == 'quoted-sheet':
+            vals[0] = OTHER_FIRST
         want = expected(fn, vals, scalars)
         stats['validated'] += 1
         stats['out:' + S.out_label(o)] += 1
@@ -138,7 +145,7 @@ def judge(vec, entries, outs, src, stats, i, vio):
         base = by.get((fn, 'column'))
         if base is None or base[0] != 'VALUE':
             continue
-        for form in [f'split{k}+{n - k}' for k in range(1, n)] + ['singles', 'row', 'whole-column', 'quoted-sheet', 'row+column-halves']:
+        for form in [f'split{k}+{n - k}' for k in range(1, n)] + ['singles', 'row', 'whole-column', 'row+column-halves']:
             o = by.get((fn, form))
             if o is None:
                 continue
